@@ -173,3 +173,236 @@ def switch_on_call_result(body, blk, term):
             continue
         return None
     return None
+
+
+# ---------------------------------------------------------------------------------------------------------------------------------
+# Refactoring-robust queries (added for C09-R2; reusable): emptiness tests in any spelling, and call sites / exits followed into
+# same-crate helper bodies with parameters bound to the arguments of the call.
+# ---------------------------------------------------------------------------------------------------------------------------------
+
+_CMP = {"Eq": lambda a, b: a == b, "Ne": lambda a, b: a != b, "Lt": lambda a, b: a < b, "Le": lambda a, b: a <= b,
+        "Gt": lambda a, b: a > b, "Ge": lambda a, b: a >= b}
+
+
+def _const_int(o):
+    if isinstance(o, dict) and "c" in o:
+        m = re.match(r"^(?:const )?(-?\d+)(?:_?[iu](?:8|16|32|64|128|size))?$", str(o["c"]).strip())
+        if m:
+            return int(m.group(1))
+    return None
+
+
+def _cmp_splits_at_zero(op, left_is_len, c):
+    """a comparison between a count and the constant c, as an emptiness test: returns True (holds iff count == 0),
+    False (holds iff count != 0) or None (it is not an emptiness test, e.g. `len > 3`)"""
+    f = _CMP.get(op)
+    if f is None:
+        return None
+    vals = [(f(n, c) if left_is_len else f(c, n)) for n in (0, 1, 2, 10 ** 9)]
+    if vals[1] == vals[2] == vals[3] and vals[0] != vals[1]:
+        return vals[0]
+    return None
+
+
+def follow_emptiness(body, blk, term, kind, hops=8):
+    """`term` (the call ending block `blk`) returns an emptiness observation of some collection: kind == "len" (a count) or
+    ("bool", true_means_empty).  Follow the value through copies, `!`, comparisons with a constant (`== 0`, `!= 0`, `> 0`, `< 1`,
+    `0 < n`, ..) to the place where it is used.  Returns
+        ("switch", block, target_when_empty, target_when_nonempty)   a branch on it
+        ("ret", kind)                                                it is the function's return value (kind as above)
+        None                                                         anything else"""
+    val = {term["d"][0]: kind}
+    b = term.get("t")
+    n = 0
+    while b is not None and n < hops:
+        n += 1
+        bl = body.blocks[b]
+        for s in bl["s"]:
+            rk = s.get("rk")
+            src = s.get("src") or []
+            d = s["d"]
+            if d[1] != "":
+                continue
+            if rk == "use" and src and isinstance(src[0], list) and src[0][1] == "" and src[0][0] in val:
+                val[d[0]] = val[src[0][0]]
+            elif rk == "un" and s.get("op") == "Not" and src and isinstance(src[0], list) and isinstance(val.get(src[0][0]), tuple):
+                val[d[0]] = ("bool", not val[src[0][0]][1])
+            elif rk == "bin" and len(src) == 2 and s.get("op") in _CMP:
+                l_len = isinstance(src[0], list) and val.get(src[0][0]) == "len" and src[0][1] == ""
+                r_len = isinstance(src[1], list) and val.get(src[1][0]) == "len" and src[1][1] == ""
+                c = _const_int(src[1]) if l_len else (_const_int(src[0]) if r_len else None)
+                if c is not None and (l_len != r_len):
+                    e = _cmp_splits_at_zero(s["op"], l_len, c)
+                    if e is not None:
+                        val[d[0]] = ("bool", e)
+                    else:
+                        val.pop(d[0], None)
+                else:
+                    # bool == true / bool != false etc. are not produced by rustc for plain conditions; anything else kills the fact
+                    val.pop(d[0], None)
+            elif d[0] in val and d[0] != term["d"][0]:
+                val.pop(d[0], None)
+        t = bl["t"]
+        k = t["k"]
+        if k == "switch" and isinstance(t["on"], list) and t["on"][0] in val and t["on"][1] == "":
+            v = val[t["on"][0]]
+            zero_t = [tgt for x, tgt in t["targets"] if x == 0]
+            if len(t["targets"]) != 1 or not zero_t:
+                return None
+            if v == "len":
+                return ("switch", b, zero_t[0], t["else"])
+            # bool: value 0 = false
+            return ("switch", b, t["else"], zero_t[0]) if v[1] else ("switch", b, zero_t[0], t["else"])
+        if k == "ret":
+            return ("ret", val[0]) if 0 in val else None
+        if k in ("goto", "assert", "drop") and "t" in t:
+            b = t["t"]
+            continue
+        return None
+    return None
+
+
+class EmptinessObservers:
+    """Which callees observe the emptiness of one of their arguments, and how.  Base observers are given by `base`
+    (regex -> kind, the collection is argument 0); a crate function that takes the collection as an argument, applies an observer
+    to it and returns the result (possibly negated / compared with a constant) is an observer too (`ParseString::is_empty` over
+    `ParseString::len`, a private `has_errors(&log)`), to `depth` levels."""
+
+    def __init__(self, cg, base, depth=2):
+        self.cg = cg
+        self.base = [(re.compile(rx), kind) for rx, kind in base]
+        self.depth = depth
+        self._memo = {}
+
+    def kind(self, callee, depth=None):
+        """-> (arg position (0-based), kind) or None"""
+        depth = self.depth if depth is None else depth
+        for rx, kind in self.base:
+            if rx.search(callee):
+                return (0, kind)
+        if depth <= 0:
+            return None
+        key = (callee, depth)
+        if key in self._memo:
+            return self._memo[key]
+        self._memo[key] = None
+        b = self.cg.bodies.get(callee)
+        res = None
+        if b is not None and len(b.blocks) <= 12 and b.locals and b.locals[0] in ("bool", "usize"):
+            sl = Slice(b)
+            for i, t in b.calls():
+                inner = self.kind(t.get("f") or t["tf"], depth - 1)
+                if inner is None or inner[0] >= len(t["args"]):
+                    continue
+                args = [r[1] for r in sl.roots(t["args"][inner[0]]) if r[0] == "arg"]
+                if len(args) != 1:
+                    continue
+                out = follow_emptiness(b, i, t, inner[1])
+                if out and out[0] == "ret":
+                    res = (args[0] - 1, out[1])
+                    break
+        self._memo[key] = res
+        return res
+
+    def observes(self, term):
+        """the call `term` observes emptiness: -> (operand observed, kind) or None"""
+        k = self.kind(term.get("f") or term["tf"])
+        if k is None or k[0] >= len(term["args"]):
+            return None
+        return term["args"][k[0]], k[1]
+
+
+class Inlined:
+    """A body seen together with the bodies of the same-crate helpers it calls (to `depth` levels): a *chain* is a tuple of
+    (body, block, call terminator) triples; all but the last are calls into followed helpers, the last is the site itself (its
+    terminator is None for a plain block).  Parameters of a helper are bound to the arguments of the call (`roots`)."""
+
+    def __init__(self, cg, follow, depth=2):
+        self.cg = cg
+        self.follow = follow
+        self.depth = depth
+        self._sl = {}
+
+    def helper(self, term):
+        b = self.cg.bodies.get(term.get("f") or term["tf"])
+        return b if b is not None and self.follow(b) else None
+
+    def calls(self, body, depth=None, prefix=()):
+        depth = self.depth if depth is None else depth
+        for i, t in body.calls():
+            ch = prefix + ((body, i, t),)
+            yield ch
+            if depth > 0:
+                hb = self.helper(t)
+                if hb is not None and all(hb is not c[0] for c in ch):
+                    for x in self.calls(hb, depth - 1, ch):
+                        yield x
+
+    def slice(self, body):
+        if id(body) not in self._sl:
+            self._sl[id(body)] = Slice(body)
+        return self._sl[id(body)]
+
+    def roots(self, chain, operand):
+        """provenance roots of an operand at the site of `chain`, expressed in the outermost body where the value comes in through
+        helper parameters: a set of (level, kind, ...) with level 0 = the outermost body"""
+        body = chain[-1][0]
+        out = set()
+        for r in self.slice(body).roots(operand):
+            if r[0] == "arg" and len(chain) > 1:
+                pt = chain[-2][2]
+                if r[1] - 1 < len(pt["args"]):
+                    out |= self.roots(chain[:-1], pt["args"][r[1] - 1])
+            else:
+                out.add((len(chain) - 1,) + tuple(r))
+        return out
+
+    def always(self, rest):
+        """the site of the (helper-internal) chain `rest` is executed on every path from the helper's entry to a normal return"""
+        if not rest:
+            return True
+        hb, blk, _ = rest[0]
+        rets = hb.ret_blocks()
+        return bool(rets) and all(hb.dominates(blk, r) for r in rets) and self.always(rest[1:])
+
+    def before(self, a, b):
+        """on every path to the site of chain b, the site of chain a has been executed (both chains start in the same body)"""
+        if a[0][0] is not b[0][0]:
+            return False
+        if a[0][1] == b[0][1]:
+            if len(a) > 1 and len(b) > 1:
+                return self.before(a[1:], b[1:])
+            return False
+        return a[0][0].dominates(a[0][1], b[0][1]) and self.always(a[1:])
+
+    def result_exits(self, body, depth=None, prefix=()):
+        """(ok chains, err chains): blocks that produce the Ok / Err return value, followed into helpers whose result is returned
+        as it is (`helper(..)` in tail position or `let r = helper(..); r`)"""
+        depth = self.depth if depth is None else depth
+        ok_b, err_b = result_exits(body)
+        ok = [prefix + ((body, i, None),) for i in sorted(ok_b)]
+        err = [prefix + ((body, i, None),) for i in sorted(err_b)]
+        if depth > 0:
+            ret_alias = {0}
+            for _ in range(3):
+                for _, s in body.stmts():
+                    if s["d"][0] in ret_alias and s["d"][1] == "" and s.get("rk") == "use" and s["src"] and isinstance(s["src"][0], list) and s["src"][0][1] == "":
+                        ret_alias.add(s["src"][0][0])
+            for i, t in body.calls():
+                if t["d"][0] in ret_alias and t["d"][1] == "":
+                    hb = self.helper(t)
+                    if hb is not None and hb.locals and hb.locals[0] == body.locals[0] and all(hb is not c[0] for c in prefix) and hb is not body:
+                        o2, e2 = self.result_exits(hb, depth - 1, prefix + ((body, i, t),))
+                        ok += o2
+                        err += e2
+        return ok, err
+
+    def edge_before(self, test_chain, sw_block, target, b):
+        """every path to the site of chain b runs through the CFG edge sw_block->target of the body in which the test
+        (`test_chain`'s site) lies.  Decidable when the test lies in a body that encloses b's site: -> True / False; None otherwise"""
+        a = test_chain
+        while len(a) > 1 and len(b) > 1 and a[0][0] is b[0][0] and a[0][1] == b[0][1]:
+            a, b = a[1:], b[1:]
+        if len(a) != 1 or a[0][0] is not b[0][0]:
+            return None
+        return edge_dominates(a[0][0], sw_block, target, b[0][1])
